@@ -1,6 +1,7 @@
 import HpxVerif.Lemmas.BmocAnd
 import HpxVerif.Lemmas.BmocNot
 import HpxVerif.Lemmas.BmocXor3
+import HpxVerif.Lemmas.BmocCanon
 
 /-!
 # C07 — BMOC logical operators implement set algebra on plain MOCs
@@ -12,7 +13,11 @@ in-range MOC of depth ≤ 29** (`not_sem`; through `go_up` / `go_down` / `dd_4_g
 bit pair of the two cell numbers), its result is a well-formed in-range MOC (`not_is_moc`, `not_wf`), `not ∘ not = id` and
 `A ∩ Aᶜ = ∅` as corollaries.  **`xor` is the symmetric difference** (`xor_sem`, public operator with `pack`; `xor_self_empty`).
 Open statements (model validated by the correspondence check on the exhaustive one- and
-two-level universes and random trees, theorems not yet proved): `or_sem`, `moc_canonical`.
+two-level universes and random trees, theorems not yet proved): `or_sem`.
+**Canonical form** (`moc_canonical`, `bmoc_canonical`): well-formed, in-range, all-full lists without four full siblings
+are determined by the set they denote; `pack` outputs are canonical (`pack_canonical`), and so are the results of `and`
+and `not`, which do not call `pack` (`and_canonical`, `not_canonical`); hence `not (not a) = a`, commutativity,
+idempotence, associativity of `and` and `a ∩ aᶜ = ∅` hold as structural equalities (`not_not`, `and_laws`).
 -/
 
 namespace Hpx.C07
@@ -131,5 +136,56 @@ theorem xor_self_empty (A : BMOC) (hdm : A.dmax ≤ 29) (hwA : WF A.dmax A.cells
   simp only [Nat.max_self] at hx
   rw [hx]
   rcases stOf_moc mA (D := A.dmax) x with h1 | h1 <;> simp [h1, Tri.xor]
+
+/-! ## canonical form: structural equality = set equality -/
+
+/-- **a packed plain MOC is canonical**: two well-formed in-range all-full cell lists without four full siblings that
+    contain the same deepest-level cells are the same list -/
+theorem moc_canonical (D : Nat) (a b : List Cell) (ha : Canonical D a) (hb : Canonical D b)
+    (h : ∀ x, x < 12 * 4 ^ D → (mem D a x ↔ mem D b x)) : a = b := moc_canonical_mem ha hb h
+
+/-- the same for raw BMOCs (what `BMOC::equals` / `==` on the entries compares) -/
+theorem bmoc_canonical (A B : BMOC) (hdm : A.dmax = B.dmax) (h29 : A.dmax ≤ 29)
+    (vA : ∀ r ∈ A.entries, ValidRaw A.dmax r) (vB : ∀ r ∈ B.entries, ValidRaw B.dmax r)
+    (cA : Canonical A.dmax A.cells) (cB : Canonical B.dmax B.cells)
+    (h : ∀ x, x < 12 * 4 ^ A.dmax → stOf A.dmax A.cells x = stOf B.dmax B.cells x) : A = B :=
+  bmoc_canonical_valid A B hdm h29 vA vB cA cB h
+
+/-- the output of `pack` on a plain MOC is canonical (this is what `or` and `xor` return) and denotes the same set -/
+theorem pack_canonical (dm : Nat) (hdm : dm ≤ 29) (cs : List Cell) (hw : WF dm cs) (hr : ∀ c ∈ cs, InR c)
+    (hf : IsMoc cs) :
+    Canonical dm (cellsOf dm (pack dm (cs.map (encode dm)))) ∧
+    ∀ x, stOf dm (cellsOf dm (pack dm (cs.map (encode dm)))) x = stOf dm cs x :=
+  pack_cells_canonical dm hdm cs hw hr hf
+
+/-- `and` does not call `pack`, and does not need to: the intersection of canonical MOCs is canonical -/
+theorem and_canonical (D : Nat) (a b : List Cell) (ha : Canonical D a) (hb : Canonical D b) :
+    Canonical D (andCells a b) := Hpx.Bmoc.and_canonical ha hb
+
+/-- `not` does not call `pack` either: the complement of a canonical MOC is canonical -/
+theorem not_canonical (D : Nat) (hD : D ≤ 29) (a : List Cell) (ha : Canonical D a) : Canonical D (notCells a) :=
+  Hpx.Bmoc.not_canonical hD ha
+
+/-- hence the algebraic laws hold as STRUCTURAL equalities: `not (not a) = a` … -/
+theorem not_not (A : BMOC) (h29 : A.dmax ≤ 29) (vA : ∀ r ∈ A.entries, ValidRaw A.dmax r)
+    (cA : Canonical A.dmax A.cells) : A.not.not = A := bmoc_not_not A h29 vA cA
+
+/-- … `a and b = b and a`, `a and a = a`, `a and not a = ∅`, associativity -/
+theorem and_laws (D : Nat) (hD : D ≤ 29) (a b c : List Cell) (ha : Canonical D a) (hb : Canonical D b)
+    (hc : Canonical D c) :
+    andCells a b = andCells b a ∧ andCells a a = a ∧ andCells a (notCells a) = [] ∧
+    andCells (andCells a b) c = andCells a (andCells b c) :=
+  ⟨and_comm_canonical ha hb, and_self_canonical ha, and_not_self_canonical hD ha, and_assoc_canonical ha hb hc⟩
+
+/-- two unions / symmetric differences of the same set are the same entries: `pack` of any two MOC cell lists with
+    the same content is the same raw list (so `or`/`xor` results compare equal iff they denote the same set) -/
+theorem pack_eq_of_same_set (dm : Nat) (hdm : dm ≤ 29) (a b : List Cell) (wa : WF dm a) (wb : WF dm b)
+    (ra : ∀ c ∈ a, InR c) (rb : ∀ c ∈ b, InR c) (fa : IsMoc a) (fb : IsMoc b)
+    (h : ∀ x, x < 12 * 4 ^ dm → stOf dm a x = stOf dm b x) :
+    pack dm (a.map (encode dm)) = pack dm (b.map (encode dm)) :=
+  Hpx.Bmoc.pack_eq_of_same_set dm hdm a b wa wb ra rb fa fb h
+
+/-- the hypotheses are satisfiable: a three-level canonical MOC -/
+example : Canonical 2 exCanonMoc := exCanonMoc_canonical
 
 end Hpx.C07
